@@ -86,6 +86,22 @@ fn main() {
     attempt("ser-iter-empty", &SerIter::from([f; 0].iter()), 0);
     attempt("deep-struct-ser-iter-field", &Deep { n: 3, t: SerIter::from([f].iter()) }, 1);
     attempt("ser-iter-of-tuple", &SerIter::from([(l, l)].iter()), 0);
+    // from a destructor that runs while the thread is unwinding from another panic ("save the state on a crash")
+    {
+        struct SaveOnDrop(Fake);
+        impl Drop for SaveOnDrop {
+            fn drop(&mut self) {
+                let mut out: Vec<u8> = Vec::new();
+                let r = std::panic::catch_unwind(std::panic::AssertUnwindSafe(|| self.0.serialize(&mut out).is_ok()));
+                let header = 37 + core::any::type_name::<Fake>().len();
+                println!("attempt struct-while-unwinding panicked={} extra={} allowed=0", r.is_err(), out.len() as isize - header as isize);
+            }
+        }
+        let _ = std::panic::catch_unwind(|| {
+            let _g = SaveOnDrop(Fake { p: L(&B), x: 1 });
+            panic!("crash");
+        });
+    }
     attempt("enum-tuple-variant", &FakeE::T(1, l), 0);
     attempt("enum-struct-variant", &FakeE::N { p: l }, 0);
     attempt("enum-unit-variant", &FakeE::A, 0);
